@@ -379,9 +379,15 @@ FAMILIES = {
     "core": dict(ops="OpsCore", menu="MenuPlain", profile="core",
                  invs=["TypeOK", "MC_C01", "MC_C02", "MC_C03", "MC_C04", "MC_C06", "MC_C08", "MC_C14", "MC_C15"],
                  quick=dict(mc=[dict(nobj=2, caps="Caps2")],
-                            sim=[dict(nobj=2, caps="Caps2", num=500, simlen=25), dict(nobj=3, caps="Caps3", num=500, simlen=30)]),
+                            sim=[dict(nobj=2, caps="Caps2", num=500, simlen=25), dict(nobj=3, caps="Caps3", num=500, simlen=30),
+                                 # graphs of 4-5 objects built from recorded edges only (asymmetric shapes)
+                                 dict(nobj=4, caps="CapsB", ops="OpsBuild", num=500, simlen=36),
+                                 dict(nobj=5, caps="CapsB", ops="OpsBuild", num=300, simlen=44)]),
                  thorough=dict(mc=[dict(nobj=2, caps="CapsL"), dict(nobj=3, caps="CapsT")],
-                               sim=[dict(nobj=3, caps="Caps3", num=6000, simlen=40), dict(nobj=4, caps="Caps3", num=6000, simlen=50)])),
+                               sim=[dict(nobj=3, caps="Caps3", num=6000, simlen=40), dict(nobj=4, caps="Caps3", num=6000, simlen=50),
+                                    dict(nobj=4, caps="CapsB", ops="OpsBuild", num=6000, simlen=40),
+                                    dict(nobj=5, caps="CapsB", ops="OpsBuild", num=6000, simlen=50),
+                                    dict(nobj=6, caps="CapsB", ops="OpsBuild", num=3000, simlen=60)])),
     "weak": dict(ops="OpsWeakQ", menu="MenuPlain", profile="weak",
                  invs=["TypeOK", "MC_C01", "MC_C02", "MC_C03", "MC_C04", "MC_C05", "MC_C06", "MC_C08"],
                  quick=dict(mc=[dict(nobj=2, caps="CapsW")],
